@@ -12,7 +12,7 @@ input generation and are not claimed.  A record may begin with lost rows
 (warm-up; those rows are not judged) and may be hit by a second burst of losses
 after it has been repaired once (same object, repaired again).
 
-Level: fault_enumeration -- for N <= 10 (quick) / 12 (thorough) every interior
+Level: fault_enumeration -- for N <= 10 (quick) / 14 (thorough) every interior
 loss mask x 4 spin rates x 5 sign-flip patterns, plus seeded long records.
 
 Reference model: a 15-line shortest-arc constant-speed SLERP (ahrs_sim.qmath).
@@ -76,7 +76,7 @@ class Check:
     run_timeout = 120
     shrink_timeout = 60
     rule = ('one case = (record length N, spin rate |w|dt in {0.01,0.5,1.5,2.6} rad/tick, sign-flip pattern in {none, alternate, first, tail, random}, '
-            'interior loss mask, optionally with torn rows that lose only some components); every interior loss mask is enumerated for N <= 10 (quick) / 12 (thorough), plus seeded long records with random '
+            'interior loss mask, optionally with torn rows that lose only some components); every interior loss mask is enumerated for N <= 10 (quick) / 14 (thorough), plus seeded long records with random '
             'loss runs; distinct = distinct (N, rate, flip pattern, mask); non-trivial = at least one row lost or flipped')
     assumptions = [
         'partial claim: the free function slerp() on arbitrary endpoint pairs and weight vectors is input generation and is not decided here; only the endpoint pairs and weights that the repair of a lossy record produces',
@@ -114,7 +114,7 @@ class Check:
 
     def enumerated(self, tier):
         out = []
-        nmax = 10 if tier == 'quick' else 12
+        nmax = 10 if tier == 'quick' else 14
         rnd = random.Random('C12/enum')
         axis = [0.3, -0.5, 0.81]
         axis = [x / math.sqrt(sum(a * a for a in axis)) for x in axis]
